@@ -48,7 +48,7 @@ def serialize_impl(name, ref, old, new_data, po=False):
     from compare_locales.serializer import serialize, SerializationNotSupportedError
     if po:
         # key_str rendering back to the (msgid, msgctxt) tuples PoEntity.key uses
-        new_data = {(k.partition("\x04")[0], k.partition("\x04")[2] or None): v
+        new_data = {(k.partition("\x04")[0], k.partition("\x04")[2] if "\x04" in k else None): v
                     for k, v in new_data.items()}
     try:
         out = serialize(name, ref, old, new_data)
@@ -114,7 +114,7 @@ def raw_values(fmt, recs):
     for e in walk_bytes(FNAME[fmt], text.encode("utf-8")):
         if ckind(e) == K_ENTITY:
             out[key_str(e.key)] = e.unwrap()
-    assert list(out) == [k for k, _ in recs], (fmt, text)
+    # (a parser that does not give these keys back is found by the oracle, not here)
     return out
 
 
@@ -175,6 +175,12 @@ def gen_triple(rng, fmt=None):
                 old_items.append(it if rng.random() < 0.5 else ("attr", it[1], it[2] + "-l10n"))
         elif rng.random() < 0.6:
             old_items.append(it)
+    if fmt == "android" and rng.random() < 0.4:
+        # the old file's root element has an attribute the reference root lacks
+        have = {it[1] for it in ref_items if it[0] == "attr"}
+        free = [a for a in c15.ATTR_POOL if a[0] not in have]
+        if free:
+            old_items.insert(0, ("attr",) + rng.choice(free))
     if rng.random() < 0.3:
         head = [it for it in old_items if it[0] in ("sec", "pi", "lic", "attr")
                 and it[1] != "unfilter emptyLines"]
